@@ -321,3 +321,5 @@ PARTS = [
     Part("linearise", eval_lin, {"quick": 400, "thorough": 10000}, strategy=lambda tier: th_profile(tier), min_nontrivial={"quick": 50, "thorough": 1500}),
 ]
 MIN_SHARE = {"linearise": {"hot": 0.3, "cold": 0.3, "rdp-keeps>10": 0.05}}
+
+FUZZ = {"clean": None}  # parts also driven by the coverage-guided supplement (thorough tier)
